@@ -9,7 +9,7 @@ import warnings
 from .common import Oracle, Suite, errname, hx, merge
 
 GEN_UNITS = ["Rng", "Handlers", "B64", "SaltGen"]
-LEAN_TARGETS = ["PasslibVerif.Props.C06"]
+LEAN_TARGETS = ["PasslibVerif.Props.C06", "PasslibVerif.Props.C06Pwd", "PasslibVerif.Props.C06PwdPhrase"]
 ASSUMPTIONS = [
     "random.SystemRandom (passlib.utils.rng), secrets.choice (libpass._salt) and rng.choice (PhraseGenerator) are assumed uniform",
     "float length-from-entropy (ceil(entropy/log2 N)) is enumerated against the exact integer minLen, not proved",
@@ -155,7 +155,12 @@ def correspond(ctx):
     for gen in (libpass_salt_cases(), secret_length_cases(), libpass_hasher_salt_cases(256)):
         for tag, inp, ok, obs, exp in gen:
             o_lp.check(tag, ok, inp, obs, exp)
-    return merge(s_help, s_salt, s_len, o_cfg, o_lp, exhaustive=False)
+    # the generators of passlib/pwd.py over a table random source (option resolution, alphabets, returns=, batches): Model.PwdGen (suite `pgen`)
+    from . import c06_pwd
+
+    s_pwd = Suite(ctx, "pwd-generators-model")
+    c06_pwd.model_suite(ctx, s_pwd)
+    return merge(s_help, s_salt, s_len, o_cfg, o_lp, s_pwd, exhaustive=False)
 
 
 class FakeSecrets:
